@@ -630,8 +630,11 @@ static ssize_t sfWrite(void *c, const char *buf, size_t n)
 	if ((i = ffFind(FF_EIO, f->cls)) >= 0 && (unsigned long) P.ff[i].a == wno) {
 		allow = 0; err = EIO; P.ff[i].fired++;
 	}
-	if ((i = ffFind(FF_ENOSPC, f->cls)) >= 0 && f->written + (long) n > P.ff[i].a) {
-		long room = P.ff[i].a - f->written;
+	/* Device full from byte B of the file on: what lies below B can be (over)written,
+	 * a write reaching beyond B is short (as the kernel does for a write straddling the
+	 * end of the free space) and later ones get nothing. */
+	if ((i = ffFind(FF_ENOSPC, f->cls)) >= 0 && f->pos + (long) n > P.ff[i].a) {
+		long room = P.ff[i].a - f->pos;
 		if (room < 0) room = 0;
 		if ((size_t) room < allow) allow = (size_t) room;
 		err = ENOSPC; P.ff[i].fired++;
